@@ -418,12 +418,41 @@ pub fn decode_fuzz_input(data: &[u8]) -> Option<(SessionCfg, Vec<Op>)> {
 
 // ------------------------------------------------------------------ array buffers and the default builder
 
-fn lean_arrays<const N: usize, const M: usize>(ops: &[Op], default_builder: bool) -> Result<usize, String> {
+/// what a run leaves behind: every byte sent to the sink, the edited line, the cursor
+type Transcript = (Vec<u8>, Vec<u8>, usize);
+
+/// the same operations on a Cli over lent slices of the given sizes (what every other workload uses)
+fn slice_transcript(cmd: usize, hist: usize, prompt: usize, ops: &[Op]) -> Result<Transcript, String> {
+    use crate::sink::MonSink;
+    use embedded_cli::command::RawCommand;
+    let mut cmd_buf = vec![0u8; cmd].into_boxed_slice();
+    let mut hist_buf = vec![0u8; hist].into_boxed_slice();
+    let sink = MonSink::new();
+    let proc = RecProc::new(vec![HAction { writes: vec![WCall { kind: WKind::Str, text: "ok".into() }], set_prompt: None, fail: false, reject: false }], None);
+    let mut rig: Rig<'_, RawCommand<'static>> = Rig::build(&mut cmd_buf, &mut hist_buf, prompt, false, sink.clone(), proc).map_err(|e| format!("build: {:?}", e))?;
+    for (i, op) in ops.iter().enumerate() {
+        let r = match op {
+            Op::Byte(b) => rig.byte(*b),
+            Op::Write(c) => rig.write(c),
+            Op::SetPrompt(p) => rig.set_prompt(*p),
+        };
+        if let Err(e) = r {
+            return Err(format!("op {} returned {:?}", i, e));
+        }
+        rig.proc.log.clear();
+    }
+    let e = rig.editor();
+    let bytes = sink.0.borrow().bytes.clone();
+    Ok((bytes, e.line, e.cursor))
+}
+
+fn lean_arrays<const N: usize, const M: usize>(ops: &[Op], default_builder: bool) -> Result<Transcript, String> {
     use crate::sink::{MonSink, SinkErr};
     use embedded_cli::cli::CliBuilder;
     use embedded_cli::command::RawCommand;
     let sink = MonSink::new();
     let mut proc = RecProc::new(vec![HAction { writes: vec![WCall { kind: WKind::Str, text: "ok".into() }], set_prompt: None, fail: false, reject: false }], None);
+    let mut last: (Vec<u8>, usize) = (vec![], 0);
     macro_rules! drive {
         ($cli:expr) => {{
             let mut cli = $cli;
@@ -445,6 +474,9 @@ fn lean_arrays<const N: usize, const M: usize>(ops: &[Op], default_builder: bool
                 }
                 proc.log.clear();
             }
+            if let Some((buf, valid, cursor)) = cli.verif_editor() {
+                last = (buf[..valid.min(buf.len())].to_vec(), cursor);
+            }
         }};
     }
     if default_builder {
@@ -453,8 +485,8 @@ fn lean_arrays<const N: usize, const M: usize>(ops: &[Op], default_builder: bool
     } else {
         drive!(CliBuilder::default().writer(sink.clone()).command_buffer([0u8; N]).history_buffer([0u8; M]).prompt("#").build().map_err(|e| format!("build: {:?}", e))?);
     }
-    let n = sink.0.borrow().bytes.len();
-    Ok(n)
+    let bytes = sink.0.borrow().bytes.clone();
+    Ok((bytes, last.0, last.1))
 }
 
 /// the `[u8; N]` Buffer implementation and the builder defaults (every other workload lends `&mut [u8]`)
@@ -465,16 +497,28 @@ pub fn run_arrays(args: &Args, rep: &mut Report) {
         let mut rng = Rng::derive(args.seed ^ 0xA77A, args.shard, idx);
         let (_cfg, ops) = gen_hostile(&mut rng, false);
         let which = idx % 8;
-        let r = match which {
-            0 => lean_arrays::<0, 0>(&ops, false),
-            1 => lean_arrays::<1, 1>(&ops, false),
-            2 => lean_arrays::<2, 5>(&ops, false),
-            3 => lean_arrays::<5, 2>(&ops, false),
-            4 => lean_arrays::<8, 8>(&ops, false),
-            5 => lean_arrays::<40, 100>(&ops, false),
-            6 => lean_arrays::<17, 3>(&ops, false),
-            _ => lean_arrays::<0, 0>(&ops, true),
+        let (r, sizes) = match which {
+            0 => (lean_arrays::<0, 0>(&ops, false), (0, 0, 2)),
+            1 => (lean_arrays::<1, 1>(&ops, false), (1, 1, 2)),
+            2 => (lean_arrays::<2, 5>(&ops, false), (2, 5, 2)),
+            3 => (lean_arrays::<5, 2>(&ops, false), (5, 2, 2)),
+            4 => (lean_arrays::<8, 8>(&ops, false), (8, 8, 2)),
+            5 => (lean_arrays::<40, 100>(&ops, false), (40, 100, 2)),
+            6 => (lean_arrays::<17, 3>(&ops, false), (17, 3, 2)),
+            // CliBuilder::default(): 40 / 100 bytes, prompt "$ "
+            _ => (lean_arrays::<0, 0>(&ops, true), (40, 100, 0)),
         };
+        // an array-backed Cli must behave exactly like a slice-backed one of the same sizes (the behavioural monitors
+        // of C01/C05/... all run on slices): same bytes to the sink, same line, same cursor
+        if let Ok(ta) = &r {
+            rep.evaluations += 1;
+            rep.count("c03.arrays.compared_with_slices");
+            match slice_transcript(sizes.0, sizes.1, sizes.2, &ops) {
+                Ok(ts) if ts == *ta => {}
+                Ok(ts) => report(rep, args, "C05", "array-vs-slice-buffers", if ts.0 != ta.0 { "output" } else { "line" }, idx, ops.len(), J::s(show_ops(&ops)), format!("command/history buffers [u8; {}]/[u8; {}] vs slices of the same sizes: output {} vs {} bytes, line {:?}/{} vs {:?}/{} [{}]", sizes.0, sizes.1, ta.0.len(), ts.0.len(), crate::json::show_bytes(&ta.1), ta.2, crate::json::show_bytes(&ts.1), ts.2, show_ops(&ops))),
+                Err(e) => report(rep, args, "C05", "array-vs-slice-buffers", "slice-run-failed", idx, ops.len(), J::s(show_ops(&ops)), format!("slice-backed run failed where the array-backed one did not: {}", e)),
+            }
+        }
         rep.evaluations += ops.len() as u64;
         rep.count_n("c03.arrays.ops", ops.len() as u64);
         rep.distinct.insert(hash_u64s(&[34, which, ops.len() as u64 / 16]));
